@@ -68,6 +68,21 @@ impl Check for IndexTables {
     type Case = IndexCase;
     const NAME: &'static str = "index_tables";
 
+    fn normalise(mut case: IndexCase) -> IndexCase {
+        // keep duplicates (they are part of the domain) but bound selectors and fix base == quote
+        let fixed = crate::props::world::normalise_defs(case.defs.clone(), false);
+        let mut defs = fixed.clone();
+        // re-introduce up to 3 exact duplicates, as the generator does
+        for (k, _) in case.defs.iter().enumerate().take(3) {
+            if case.order_b.get(k).is_some_and(|x| x % 3 == 0) {
+                defs.push(fixed[k % fixed.len()]);
+            }
+        }
+        case.defs = defs;
+        case
+    }
+
+
     fn strategy(tier: Tier) -> BoxedStrategy<IndexCase> {
         let max = match tier {
             Tier::Quick => 10usize,
